@@ -238,7 +238,7 @@ def write_tree(root: Path, files: dict[str, str]) -> None:
         p.write_text(text, encoding="utf-8")
 
 
-CLI_ENV = {"PYTHONPATH": "/repo/src", "PYTHONSAFEPATH": "1", "PYTHONDONTWRITEBYTECODE": "1"}
+CLI_ENV = {"PYTHONPATH": os.environ.get("VERIF_REPO", "/repo") + "/src", "PYTHONSAFEPATH": "1", "PYTHONDONTWRITEBYTECODE": "1"}
 
 
 def run_cli(src: Path, out: Path, *, docstyle="plaintext", testrun=False, nc=False, tsp="code", tsw="warn",
